@@ -243,6 +243,8 @@ prop("C04", "exploration",
          {"harness": "eng", "flavour": "shim", "tags": ["poll_opt"], "args": {"quick": ["--mode", "c04", "--n", "6"], "thorough": ["--mode", "c04", "--n", "60"]}, "timeout": {"quick": 900, "thorough": 3400}},
          {"harness": "eng", "flavour": "shim", "tags": ["gc_opt"], "args": {"quick": ["--mode", "c04", "--n", "4"], "thorough": ["--mode", "c04", "--n", "60"]}, "timeout": {"quick": 900, "thorough": 3400}},
          {"harness": "eng", "flavour": "shim", "arch": "386", "args": {"quick": ["--mode", "c04", "--n", "4"], "thorough": ["--mode", "c04", "--n", "40"]}, "timeout": {"quick": 900, "thorough": 3400}},
+         {"harness": "eng", "flavour": "shim", "args": {"quick": ["--mode", "c14"], "thorough": ["--mode", "c14"]}, "timeout": {"quick": 600, "thorough": 1800}},
+         {"harness": "eng", "flavour": "shim", "args": {"quick": ["--mode", "c06", "--n", "10"], "thorough": ["--mode", "c06", "--n", "60"]}, "timeout": {"quick": 900, "thorough": 3400}},
      ],
      "Online lifecycle automaton inside the event handler of real engines, driven by histories that mix every close cause, including closes requested from inside callbacks and races between causes.",
      "close causes are armed by the harness just before it provokes them; a cause provoked by the kernel on its own (none on loopback) would be reported as unexpected",
@@ -386,7 +388,9 @@ RULE_ADDENDA = {
     "C02": "Added: operations that move no bytes (empty Write / Writev, ReadFrom of a reader at EOF followed by Flush, empty asynchronous "
            "writes), segment vectors of 1025-1300 and 2049-3000 entries, OnOpen replies of 1-3 MiB.",
     "C04": "Added: EventLoop.Close inside OnOpen, close requests inside OnClose, an empty datagram sent to a connected client UDP socket "
-           "(a peer-induced close must carry an error), accepted sockets must be registered or closed at the quiescent point before shutdown.",
+           "(a peer-induced close must carry an error), accepted sockets must be registered or closed at the quiescent point before shutdown; "
+           "jobs in the c14 mode (a registration that fails must not be counted) and the c06 mode (every shutdown source, every OnClose "
+           "returning Shutdown: the sweep still closes every connection exactly once).",
     "C05": "Added: the poll_opt build runs the same workload without -race (confinement and overlap monitors only): with -race Go's checkptr "
            "instrumentation stops that build at its first event (misaligned pointer conversion in netpoll.restorePollAttachment, the packed epoll "
            "event), so its data-race half cannot be observed with the race detector (DESIGN 8.2).",
